@@ -392,3 +392,14 @@ Proof.
   split; [ | vm_compute; reflexivity ].
   intros cls d Hin. unfold documented in Hin. split_in Hin; inversion Hin; subst; vm_compute; reflexivity.
 Qed.
+
+(* ------------------------------------------------------------------ fit_predict hands the matrix on *)
+(* documented: fit_predict(X, y) = fit(X, y).labels_ : the (precomputed) matrix y reaches fit unchanged *)
+Definition doc_fit_predict : mexpr := MField (MSelfCall "fit" [MVar "X"; MVar "y"]) "labels_".
+Lemma fit_predict_forwards_matrix :
+  (forall cls d, In (cls, d) documented -> fit_predict_term classes cls = Some (doc_fit_predict, [])) /\
+  fit_predict_term classes "Kauri" = Some (doc_fit_predict, []).
+Proof.
+  split; [ | vm_compute; reflexivity ].
+  intros cls d Hin. unfold documented in Hin. split_in Hin; inversion Hin; subst; vm_compute; reflexivity.
+Qed.
